@@ -62,10 +62,26 @@ def module_constants(tree):
             try:
                 v = ast.literal_eval(n.value)
             except Exception:
+                if _is_pi_arith(n.value):
+                    out[n.targets[0].id] = ('constexpr', n.value)
                 continue
             if isinstance(v, (int, float, str, tuple)):
                 out[n.targets[0].id] = v
     return out
+
+
+def _is_pi_arith(node):
+    """Arithmetic over numeric literals and np.pi / math.pi only (PI2 = np.pi / 2)."""
+    if isinstance(node, ast.Constant):
+        return isinstance(node.value, (int, float)) and not isinstance(node.value, bool)
+    if isinstance(node, ast.Attribute):
+        return isinstance(node.value, ast.Name) and node.value.id in ('np', 'math', 'numpy') \
+            and node.attr == 'pi'
+    if isinstance(node, ast.BinOp) and isinstance(node.op, (ast.Add, ast.Sub, ast.Mult, ast.Div)):
+        return _is_pi_arith(node.left) and _is_pi_arith(node.right)
+    if isinstance(node, ast.UnaryOp) and isinstance(node.op, (ast.USub, ast.UAdd)):
+        return _is_pi_arith(node.operand)
+    return False
 
 
 def leaves(name, v, acc):
@@ -269,7 +285,8 @@ class Verifier:
         # records are mutable: old_<name> is the record as it was on entry (its fields then)
         for k0, v0 in list(init_env.items()):
             if isinstance(v0, SObj):
-                init_env['old_' + k0] = SObj(v0.cls, dict(v0.fields), none_if=v0.none_if)
+                from .symexec import _clone
+                init_env['old_' + k0] = _clone(v0, {})      # deep: nested records as on entry
         # snapshot 'old' values of array inputs for frame postconditions
         for r in c.requires:
             st.assume(ex.eval_cl(r, st))
